@@ -50,6 +50,7 @@ type concState struct {
 	owner    map[interface{}]int
 	ownerIdx map[interface{}]int // program-order index of the allocation in the owner's trace
 	poolCell map[interface{}][]*poolRec // cells of objects that went through a sync.Pool
+	handovers []*poolRec                // every Put (completed by the Get that received the object)
 	thread   int
 	counter  map[int]int
 	held     map[int][]*lockSection
@@ -190,6 +191,7 @@ func (i *interpreter) poolPut(obj value) {
 	var cells []*value
 	leafCells(p, &cells)
 	rec := &poolRec{putThread: c.thread, putIdx: c.tick()}
+	c.handovers = append(c.handovers, rec)
 	for _, cell := range cells {
 		c.poolCell[cell] = append(c.poolCell[cell], rec)
 		c.shared[cell] = "pooled object"
@@ -317,7 +319,10 @@ func (i *interpreter) lockOp(name string, p *value, fr *frame) {
 // orderedByPool: access x happens before its thread Puts the object and access y
 // after the other thread's matching Get (program order + Put-before-Get).
 func (i *interpreter) orderedByPool(a, b access) bool {
-	for _, rec := range i.conc.poolCell[a.addr] {
+	// Put(x) happens before the Get that returns x (Go memory model), so every
+	// access of the putting thread before the Put precedes every access of the
+	// getting thread after the Get - whatever object is accessed.
+	for _, rec := range i.conc.handovers {
 		if rec.getThread == 0 {
 			continue
 		}
@@ -423,7 +428,7 @@ func (i *interpreter) raceQuery(a, b access) string {
 		}
 	}
 	// sync.Pool: the Put of an object happens before the Get that hands it out
-	for _, rec := range c.poolCell[a.addr] {
+	for _, rec := range c.handovers {
 		if rec.getThread == 0 || !((rec.putThread == a.thread && rec.getThread == b.thread) || (rec.putThread == b.thread && rec.getThread == a.thread)) {
 			continue
 		}
